@@ -1,5 +1,5 @@
 (* Properties/C15.v — rejected builder calls have no effect; no dangling ids (C15) *)
-From HpoV Require Import Gen.Consts Model.Base Model.Group Model.Onto Model.Dump Model.Script Run.World Run.Ser Run.C15 Proofs.C15P Proofs.ScriptP Proofs.ClosureP Model.Dump Proofs.WalkP.
+From HpoV Require Import Gen.Consts Model.Base Model.Group Model.Onto Model.Dump Model.Script Run.World Run.Ser Run.C15 Proofs.C15P Proofs.ScriptP Proofs.ClosureP Model.Dump Proofs.WalkP Proofs.WalkAllP Proofs.DistP Proofs.RoundTripP Proofs.AnnotP Proofs.JaxP Proofs.DecodeAnyP Model.Binary Model.Text Model.SubOnt.
 
 Theorem C15_referentially_closed : forall d, ref_closed d = true ->
   (forall t, In t (do_terms d) ->
@@ -47,9 +47,36 @@ Theorem C15_builder_ontologies_walk_returns : forall icf s codes o, run_script i
   exists d, dump_onto o = Ok d.
 Proof. exact builder_walk_returns. Qed.
 
+(* NO DANGLING IDS ON THE OTHER CONSTRUCTION PATHS: the same walk returns on every ontology with exact
+   caches, children = parents^-1, inherited annotation sets and records naming stored terms ... *)
+Theorem C15_wellformed_ontologies_walk_returns : forall o, src_ok o -> ann_ok o ->
+  (forall k r d, In r (o_records k o) -> In d (a_hpos r) -> In d (ar_keys (o_arena o))) ->
+  exists d, dump_onto o = Ok d.
+Proof. exact wellformed_walk_returns. Qed.
+
+(* ... hence on every JAX load (closed hp.obo), every sub-ontology of an ontology with exact caches,
+   every accepted well-formed binary file whose records name stored terms *)
+Theorem C15_jax_ontologies_walk_returns : forall icf tr obo genes hpoa o, obo_closed obo ->
+  load_jax icf tr obo genes hpoa = Ok o -> exists d, dump_onto o = Ok d.
+Proof. exact jax_walk_returns. Qed.
+
+Theorem C15_sub_ontologies_walk_returns : forall icf o root leaves o', qgood o ->
+  (forall l, In l leaves -> In l (ar_keys (o_arena o))) -> sub_ontology icf o root leaves = Ok o' ->
+  exists d, dump_onto o' = Ok d.
+Proof. exact sub_walk_returns. Qed.
+
+Theorem C15_binary_ontologies_walk_returns : forall icf input o, decode icf input = Ok o -> bin_closed input -> bin_distinct input ->
+  (forall k r d, In r (o_records k o) -> In d (a_hpos r) -> In d (ar_keys (o_arena o))) ->
+  exists d, dump_onto o = Ok d.
+Proof. exact decoded_walk_returns. Qed.
+
 Print Assumptions C15_referentially_closed.
 Print Assumptions C15_same_observation.
 Print Assumptions C15_model_failed_add_parent_no_trace.
 Print Assumptions C15_model_failed_annotate_no_trace.
 Print Assumptions C15_model_add_parent_keeps_links_resolving.
 Print Assumptions C15_builder_ontologies_walk_returns.
+Print Assumptions C15_wellformed_ontologies_walk_returns.
+Print Assumptions C15_jax_ontologies_walk_returns.
+Print Assumptions C15_sub_ontologies_walk_returns.
+Print Assumptions C15_binary_ontologies_walk_returns.
